@@ -7,14 +7,32 @@ CLAIMED = {
   "note": "Trusted base: the reference model (about 60 lines) delegates single-payload parsing to the real parse_tls_record_with_header, so C07 is checked as refinement of accumulation, not of payload decoding; heartbeat accumulations > 65535 bytes are unconstrained; the hook accessor verif_defrag_buffer is assumed to return the live buffer.",
   "technique": "deterministic simulation: seeded operation histories with fault injection, call-by-call refinement against an executable reference model",
  },
+ "C02": {
+  "category": "fault_enumeration",
+  "text": "Every cut point of every sampled record stream: the simulated byte pipe delivers each stream under seeded segmentation schedules, of which the dribble and boundary-dribble schedules deliver one byte per event and thereby enumerate every prefix length 0..=5+len (with and without in-flight trailing bytes) of every record in the run; at each delivery event the three record parsers and the header parser are compared with a ten-line reference framer (Incomplete iff strict prefix, exact Needed once the header is there, TooLarge above 2^14+256 whatever follows, verbatim header fields, payload and remainder by address) and a Needed-driven reader must emit every complete record. The property is a relation over all cut points of a stream, i.e. over what a delivery schedule chooses, so enumerating the schedule's fault points per sampled record is the right level; the records themselves (types, versions, lengths) are sampled with boundary bias.",
+  "design_ref": "DESIGN.md section 3 (C02)",
+  "note": "Trusted base: the reference framer; streams are sampled (all 256 content types and boundary lengths are biased, not exhausted); records of 16 KiB are enumerated only around their boundaries (boundary-dribble) in most runs.",
+  "technique": "deterministic simulation: seeded byte-stream delivery schedules enumerating every cut point, reference-framer oracle at every delivery event, Needed-driven reader liveness",
+ },
+ "C03": {
+  "category": "exploration",
+  "text": "Seeded search over conversations and record-layer packing plans: which messages share a record is the sending record layer's choice, so the check simulates peers, a packing record layer and a byte pipe, and compares what the real one-step and two-step pipelines deliver with the sender's log (same count, same order, every field equal through an independent value walker, exactly-once over the whole history, two-step remainder by address), plus a malformed-peer batch of constructively malformed payloads whose verdict is certain. Sampled conversations: evidence, not proof.",
+  "design_ref": "DESIGN.md section 3 (C03)",
+  "note": "Trusted base: the reference encoder (abstract message -> bytes) and the value->abstract walker; field values are sampled with boundary bias; handshake bodies are compared only on well-formed encodings (rejection lists of C04 are not explored).",
+  "technique": "deterministic simulation: seeded peers + record-layer packing + byte pipe, sent-log vs delivered-log oracle over one-step and two-step pipelines",
+ },
+ "C16": {
+  "category": "exploration",
+  "text": "The argument of the many-parsers in a real reader is the receive buffer: n complete records followed by whatever the network has delivered so far. The simulated monitor applies tls_parser_many (and parse_dtls_plaintext_records on datagrams) to its buffer at every delivery event of seeded streams with truncation, oversize headers, length lies, garbage and corruption, and compares with an explicit loop over the single-record parser (list, remainder by address, fails iff the first record fails); tls_parser is compared with parse_tls_plaintext as full results on every buffer.",
+  "design_ref": "DESIGN.md section 3 (C16)",
+  "note": "Trusted base: the single-record parser is taken as the specification (relation between two real functions); buffers are sampled by the delivery schedule.",
+  "technique": "deterministic simulation: receive-buffer states under seeded delivery/fault schedules, differential oracle against an explicit single-record loop",
+ },
 }
 PENDING = {
  "C01": "claimed in DESIGN.md; check not built yet in this revision",
- "C02": "claimed in DESIGN.md; check not built yet in this revision",
- "C03": "claimed in DESIGN.md; check not built yet in this revision",
  "C06": "claimed in DESIGN.md; check not built yet in this revision",
  "C08": "claimed in DESIGN.md; check not built yet in this revision",
  "C09": "claimed in DESIGN.md; check not built yet in this revision",
  "C10": "claimed in DESIGN.md; check not built yet in this revision",
- "C16": "claimed in DESIGN.md; check not built yet in this revision",
 }
